@@ -915,15 +915,24 @@ func isCompare(e ast.Expr) bool {
 }
 
 func (cg *cgen) muldivExpr(node *ast.Nary) {
+	// Folding can leave a divisor first e.g. 6 / x => Nary(Mul Unary(Div x) 6)
+	// We must not generate that as (1 / x) * 6 since it rounds twice
+	// e.g. 360 / x with x = 360 would give .9999999999999997
 	var divs []ast.Expr
-	cg.expr(node.Exprs[0])
-	for _, e := range node.Exprs[1:] {
+	nmul := 0
+	for _, e := range node.Exprs {
 		if isUnary(e, tok.Div) {
 			divs = append(divs, e.(*ast.Unary).E)
 		} else {
 			cg.expr(e)
-			cg.emit(op.Mul)
+			if nmul > 0 {
+				cg.emit(op.Mul)
+			}
+			nmul++
 		}
+	}
+	if nmul == 0 {
+		cg.emit(op.One)
 	}
 	if len(divs) > 0 {
 		cg.expr(divs[0])
